@@ -461,7 +461,7 @@ async fn run_cli(ctx: &mut Ctx, routes: &[RouteRow]) {
                 extra.insert("restore".to_string(), serde_json::json!({ "checkpoint": cp }));
                 pipeline_id = pid;
             }
-            index.push((key.clone(), id.as_str().to_string()));
+            index.push((key.clone(), format!("T{i}")));   // canonical tenant id (the real one is a UUID)
         }
         let mgr: SharedTenantManager = Arc::new(tokio::sync::RwLock::new(mgr));
         let filter = varpulis_cli::api::api_routes(mgr.clone(), conf.admin.clone()).recover(varpulis_cli::auth::handle_rejection);
